@@ -328,3 +328,41 @@ pub fn reader_actor(a: &Args) {
     println!("reader_status={}", status);
     println!("session_alive={}", sink_alive as u8);
 }
+
+/// C19 limit plumbing: a NodeServer configured with a small inbound frame limit; a connection injected over an external transport sends only the 8-byte
+/// header of a frame. `frame_limit limit=<n> declared=<n>` prints closed=1 if the node closed the connection from the header alone.
+pub fn frame_limit(a: &Args) {
+    use ractor::Actor;
+    use ractor_cluster::{BoxRead, BoxWrite, ClusterBidiStream, NodeServer, NodeServerMessage};
+    use tokio::io::{AsyncReadExt, AsyncWriteExt};
+    struct Duplex(tokio::io::DuplexStream);
+    impl ClusterBidiStream for Duplex {
+        fn split(self: Box<Self>) -> (BoxRead, BoxWrite) {
+            let (r, w) = tokio::io::split(self.0);
+            (Box::new(r), Box::new(w))
+        }
+        fn peer_label(&self) -> Option<String> {
+            Some("peer".to_string())
+        }
+        fn local_label(&self) -> Option<String> {
+            Some("local".to_string())
+        }
+    }
+    let limit = a.u64("limit");
+    let declared = a.u64("declared");
+    let rt = tokio::runtime::Builder::new_multi_thread().worker_threads(2).enable_all().build().unwrap();
+    rt.block_on(async {
+        let server = NodeServer::new(0, "cookie".to_string(), format!("limit-node-{}", std::process::id()), "localhost".to_string(), None, None).with_max_inbound_frame_size(limit);
+        let (node, node_handle) = Actor::spawn(None, server, ()).await.expect("node server starts");
+        let (ours, theirs) = tokio::io::duplex(64 * 1024);
+        node.cast(NodeServerMessage::ConnectionOpenedExternal { stream: Box::new(Duplex(theirs)), is_server: true }).expect("connection accepted");
+        let (mut read, mut write) = tokio::io::split(ours);
+        write.write_all(&declared.to_be_bytes()).await.expect("header written");
+        write.flush().await.expect("flushed");
+        let mut sink = [0u8; 64];
+        let closed = matches!(tokio::time::timeout(std::time::Duration::from_millis(1500), read.read(&mut sink)).await, Ok(Ok(0)) | Ok(Err(_)));
+        println!("closed={}", closed as u8);
+        node.stop(None);
+        let _ = tokio::time::timeout(std::time::Duration::from_secs(3), node_handle).await;
+    });
+}
